@@ -146,7 +146,7 @@ def has_transc(e):
 # ------------------------------------------------------------------ value streams
 
 FAMILIES = ["ints", "dyadic8", "dyadic1024", "ties", "zeros", "rampup", "rampdown", "spike",
-            "flat_after_volatile", "affine", "sawtooth", "big_small"]
+            "flat_after_volatile", "affine", "sawtooth", "big_small", "tiny", "huge"]
 
 
 def stream(rng, family, length, n=4, positive=False):
@@ -191,6 +191,11 @@ def stream(rng, family, length, n=4, positive=False):
     elif family == "sawtooth":
         p = rng.randint(2, 5)
         xs = [F((t % p) - p // 2) + F(rng.randint(0, 1), 8) for t in range(L)]
+    elif family in ("tiny", "huge"):
+        # ordinary shapes in very small / very large units (exact powers of two): absolute thresholds show up here
+        base = stream(rng, rng.choice(["ints", "dyadic8", "ties", "rampup", "sawtooth", "spike"]), L, n)
+        sc = F(2) ** (-40 if family == "tiny" else 30)
+        xs = [x * sc for x in base]
     elif family == "big_small":
         xs = [F(rng.choice([1, 1000])) * F(rng.randint(-16, 16), 16) for _ in range(L)]
     else:
